@@ -17,6 +17,15 @@ tab = "| change (seeded/…) | file | needs, to manifest | check | result | firs
 for r in rows:
     tab += "| %s | %s | %s | %s | %s | `%s` |\n" % (r[0], r[2], r[3][:230], r[4], r[5], r[6][:150])
 sec = open(V + '/docs/status_section.md').read().replace('@@SEEDED_TABLE@@', tab)
+ben = ''
+if os.path.exists(V + '/benign/RESULTS.md'):
+    lines = open(V + '/benign/RESULTS.md').read().splitlines()
+    summ = [l for l in lines if 'patches,' in l and 'check runs' in l]
+    bad = [l for l in lines if l.startswith('| ') and not l.rstrip().endswith('| - |') and not l.startswith('| patch') and not l.startswith('|---')]
+    ben = "Final state (`tools/run_all_benign.sh`, table in `benign/RESULTS.md`): " + (summ[0] if summ else '') + "\n\n"
+    if bad:
+        ben += "Patches that still raise an alarm (each is a loop that carries an invariant moved into a new helper with renamed variables or an edited header — see the limits below):\n\n| patch | function(s) | kind | checks run | alarms |\n|---|---|---|---|---|\n" + "\n".join(bad) + "\n"
+sec = sec.replace('@@BENIGN_RESULTS@@', ben)
 
 props = {}
 for l in open(V + '/properties.jsonl'):
